@@ -117,19 +117,11 @@ theorem shortlex_subset_geodesic {nb : Nat → Nat → Option Nat} {nroots rank 
 
 /-! ## the even-length variant -/
 
-/-- the block word of a list of 2-letter labels -/
-def unblock (ps : List (Nat × Nat)) : List Nat := ps.flatMap fun p => [p.1, p.2]
-
-/-- following 2-letter labels with `step2` is following the concatenated word -/
-def follow2 (A : Table) : Nat → List (Nat × Nat) → Option Nat
-  | s, [] => some s
-  | s, p :: ps => (A.step2 s p).bind fun t => follow2 A t ps
-
 /-- **even variant, transition level**: a sequence of 2-letter labels is a path of
 `automaton_multiple(2)`'s transition relation iff the concatenated word is a path of the
 original automaton (same end state).  Every word of even length is `unblock` of exactly one
 label sequence, so the product automaton accepts exactly the accepted words of even length. -/
-theorem even_variant (A : Table) (s : Nat) (ps : List (Nat × Nat)) :
+theorem even_step (A : Table) (s : Nat) (ps : List (Nat × Nat)) :
     follow2 A s ps = A.follow s (unblock ps) := by
   induction ps generalizing s with
   | nil => rfl
@@ -143,6 +135,21 @@ theorem even_variant (A : Table) (s : Nat) (ps : List (Nat × Nat)) :
       cases h2 : A.step t p.2 with
       | none => simp
       | some t' => simp only [Option.bind_some]; exact ih t'
+
+/-- **even variant**: the automaton built by `automaton_multiple(2)` (breadth-first from the start
+state, as the code does it) follows a sequence of 2-letter labels exactly as the original automaton
+follows the concatenated word — same end state, same acceptance.  Together with `exists_unblock`
+and `unblock_length`: it accepts exactly the accepted words of even length. -/
+theorem even_variant {A : Table} {rank fuel : Nat} {E : EvenG} (hA : ∀ row ∈ A, row.length ≤ rank)
+    (h : evenAutomaton A rank fuel = some E) (ps : List (Nat × Nat)) :
+    E.follow 0 ps = A.follow 0 (unblock ps) := by
+  obtain ⟨vis, hI⟩ := evenBfs_spec A rank hA fuel [0] [] [] E h
+    ⟨fun v => by simp, fun v hv => (by cases hv), Or.inr (by simp)⟩
+  have h0 : 0 ∈ vis := by
+    rcases hI.start with h | h
+    · exact h
+    · cases h
+  rw [even_follow A rank hA vis E hI ps 0 h0, even_step]
 
 theorem unblock_length (ps : List (Nat × Nat)) : (unblock ps).length = 2 * ps.length := by
   induction ps with
